@@ -274,6 +274,37 @@ pub fn generate_and_run(seed: u64, tier: &str, cases_w: &mut dyn Write, impl_w: 
 		let r = catch_unwind(AssertUnwindSafe(|| xt::verif::yaml_events(mk()).len()));
 		record("over-reporting beyond the buffer (parser only)", if r.is_ok() { "returned" } else { "clean panic" }, &mut st, cases_w, impl_w);
 	}
+	// The parser driven without the chunker's own reader in between (as `has_document` drives it): a reader that fills a
+	// 16 KiB request completely and claims a few bytes more.  Whatever the parser makes of it, the events it yields must be
+	// the events an honest reader yields that delivers the same bytes and then fails: anything more was parsed from memory
+	// the reader never filled.
+	if std::env::var("XT_VERIF_PANIC_CASES").map(|v| v != "only").unwrap_or(true) {
+		let mut big = vec![];
+		for i in 0..4000 {
+			big.extend_from_slice(format!("- b{i}\n").as_bytes());
+		}
+		for excess in [1usize, 8, 16, 64, 1000] {
+			for from_call in [0usize, 1] {
+				let lying = catch_unwind(AssertUnwindSafe(|| {
+					xt::verif::yaml_events(Liar { inner: SchedReader::new(&big, Sched::Full, None), excess, from_call, calls: 0 })
+				}));
+				let tr = trace_field();
+				let honest = catch_unwind(AssertUnwindSafe(|| xt::verif::yaml_events(SchedReader::new(&big, Sched::Full, Some(16384 * (from_call + 1))))));
+				let _ = trace_field();
+				let n = |r: &std::thread::Result<Vec<(u32, u64, u64)>>| r.as_ref().map(|v| v.iter().filter(|e| e.0 != 255).count()).unwrap_or(0);
+				let same = n(&lying) <= n(&honest);
+				writeln!(cases_w, "MP {id} {tr}").unwrap();
+				if same {
+					writeln!(impl_w, "{id} ok clean").unwrap();
+				} else {
+					writeln!(impl_w, "{id} overread: a reader claiming {excess} bytes more than the 16384 it stored (from call {from_call}) yields {} events, an honest reader delivering the same bytes and then failing yields {}", n(&lying), n(&honest)).unwrap();
+				}
+				*st.kinds.entry("over-reporting past a full buffer (parser only, events compared with an honest reader)".to_string()).or_default() += 1;
+				*st.outcomes.entry(if lying.is_ok() { "returned" } else { "clean panic" }.to_string()).or_default() += 1;
+				id += 1;
+			}
+		}
+	}
 	st.cases = id;
 	st
 }
